@@ -35,39 +35,92 @@ Definition enc (a : bact) : leaf_act :=
 
 Definition enc_res {A} (r : A * list bact) : A * list leaf_act := (fst r, map enc (snd r)).
 
+(* ---- proof automation: robust against harmless rewrites of the Go text (renamed locals,
+   re-associated / negated integer comparisons, if-else chains vs switch, early returns) ---- *)
+
+Ltac zb :=
+  repeat match goal with
+         | H : (_ <? _) = true |- _ => apply Z.ltb_lt in H
+         | H : (_ <? _) = false |- _ => apply Z.ltb_ge in H
+         | H : (_ <=? _) = true |- _ => apply Z.leb_le in H
+         | H : (_ <=? _) = false |- _ => apply Z.leb_gt in H
+         | H : (_ =? _) = true |- _ => apply Z.eqb_eq in H
+         | H : (_ =? _) = false |- _ => apply Z.eqb_neq in H
+         end.
+
+(* comparisons of two constants (state codes after a case split on the state) *)
+Ltac eval_closed :=
+  repeat match goal with
+         | |- context [Z.eqb ?a ?b] =>
+             let v := eval vm_compute in (Z.eqb a b) in
+             match v with
+             | true => change (Z.eqb a b) with true
+             | false => change (Z.eqb a b) with false
+             end
+         end.
+
+Ltac simp := cbv zeta; eval_closed; cbn [andb orb negb fst snd map app Bool.eqb].
+
+(* case split on the leftmost atom of a boolean condition *)
+Ltac atom c :=
+  lazymatch c with
+  | orb ?x _ => atom x
+  | andb ?x _ => atom x
+  | negb ?x => atom x
+  | _ => destruct c eqn:?
+  end.
+
+Ltac split_conds :=
+  repeat (match goal with |- context [if ?c then _ else _] => atom c end; simp).
+
+Ltac split_cmps :=
+  repeat (match goal with
+          | |- context [Z.ltb ?a ?b] => destruct (Z.ltb a b) eqn:?
+          | |- context [Z.leb ?a ?b] => destruct (Z.leb a b) eqn:?
+          | |- context [Z.eqb ?a ?b] => destruct (Z.eqb a b) eqn:?
+          end; simp).
+
+(* congruence down to integer equations (operands of + re-ordered, inside u64 / constructors) *)
+Ltac zcong := first [ reflexivity | lia | (progress f_equal; zcong) ].
+
+Ltac leaf_solve :=
+  simp; split_conds; split_cmps;
+  first [ reflexivity | exfalso; zb; lia
+        | cbv beta iota delta [enc act_code enc_snap st_code enc_res fst snd]; zcong ].
+
 (* ---- circuitBreakerBase ---- *)
 
 Lemma cb_retryTimeoutArrived_ok deadline now :
   cb_retryTimeoutArrived deadline now = retry_arrived deadline now.
-Proof. reflexivity. Qed.
+Proof. unfold cb_retryTimeoutArrived, retry_arrived. leaf_solve. Qed.
 
 Lemma cb_updateNextRetryTimestamp_ok retry now :
   cb_updateNextRetryTimestamp retry now = map enc (retry_store now retry).
-Proof. reflexivity. Qed.
+Proof. unfold cb_updateNextRetryTimestamp, retry_store, retry_value. leaf_solve. Qed.
 
 Lemma cb_bucketCount_ok interval raw : cb_bucketCount interval raw = bucket_count interval raw.
-Proof. unfold cb_bucketCount, bucket_count. cbv zeta. destruct (_ || _); reflexivity. Qed.
+Proof. unfold cb_bucketCount, bucket_count. leaf_solve. Qed.
 
 Lemma cb_fromClosedToOpen_ok ok z :
   cb_fromClosedToOpen ok z = enc_res (from_closed_to_open_leaf ok (SZ z)).
-Proof. destruct ok; reflexivity. Qed.
+Proof. unfold cb_fromClosedToOpen. destruct ok; leaf_solve. Qed.
 
 Lemma cb_fromOpenToHalfOpen_ok ok entry_nil :
   cb_fromOpenToHalfOpen ok entry_nil = enc_res (from_open_to_half_leaf ok entry_nil).
-Proof. destruct ok, entry_nil; reflexivity. Qed.
+Proof. unfold cb_fromOpenToHalfOpen. destruct ok, entry_nil; leaf_solve. Qed.
 
 Lemma cb_fromHalfOpenToOpen_ok ok z :
   cb_fromHalfOpenToOpen ok z = enc_res (from_half_to_open_leaf ok (SZ z)).
-Proof. destruct ok; reflexivity. Qed.
+Proof. unfold cb_fromHalfOpenToOpen. destruct ok; leaf_solve. Qed.
 
 Lemma cb_fromHalfOpenToClosed_ok ok :
   cb_fromHalfOpenToClosed ok = enc_res (from_half_to_closed_leaf ok).
-Proof. destruct ok; reflexivity. Qed.
+Proof. unfold cb_fromHalfOpenToClosed. destruct ok; leaf_solve. Qed.
 
 (* the hook returns nil (0) and performs the rollback of a blocked probe *)
 Lemma cb_rollbackHook_ok blocked ok :
   cb_rollbackHook blocked ok = (0, map enc (rollback_leaf blocked ok)).
-Proof. destruct blocked, ok; reflexivity. Qed.
+Proof. unfold cb_rollbackHook. destruct blocked, ok; leaf_solve. Qed.
 
 (* ---- TryPass ---- *)
 
@@ -75,38 +128,24 @@ Lemma cb_slow_TryPass_ok probe ok deadline now st :
   cb_slow_TryPass probe ok deadline now (st_code st) = enc_res (try_pass_leaf probe st deadline now ok).
 Proof.
   unfold cb_slow_TryPass, try_pass_leaf, retry_arrived, enc_res.
-  destruct st; cbn [st_code Z.eqb Pos.eqb andb fst snd map]; cbv zeta.
-  - reflexivity.
-  - destruct (0 <? probe); reflexivity.
-  - destruct (deadline <=? now); [destruct ok|]; reflexivity.
+  destruct st, ok; cbn [st_code]; leaf_solve.
 Qed.
 
 Lemma cb_errRatio_TryPass_ok probe ok deadline now st :
   cb_errRatio_TryPass probe ok deadline now (st_code st) = enc_res (try_pass_leaf probe st deadline now ok).
 Proof.
   unfold cb_errRatio_TryPass, try_pass_leaf, retry_arrived, enc_res.
-  destruct st; cbn [st_code Z.eqb Pos.eqb andb fst snd map]; cbv zeta.
-  - reflexivity.
-  - destruct (0 <? probe); reflexivity.
-  - destruct (deadline <=? now); [destruct ok|]; reflexivity.
+  destruct st, ok; cbn [st_code]; leaf_solve.
 Qed.
 
 Lemma cb_errCount_TryPass_ok probe ok deadline now st :
   cb_errCount_TryPass probe ok deadline now (st_code st) = enc_res (try_pass_leaf probe st deadline now ok).
 Proof.
   unfold cb_errCount_TryPass, try_pass_leaf, retry_arrived, enc_res.
-  destruct st; cbn [st_code Z.eqb Pos.eqb andb fst snd map]; cbv zeta.
-  - reflexivity.
-  - destruct (0 <? probe); reflexivity.
-  - destruct (deadline <=? now); [destruct ok|]; reflexivity.
+  destruct st, ok; cbn [st_code]; leaf_solve.
 Qed.
 
 (* ---- OnRequestComplete ---- *)
-
-Ltac split_ifs :=
-  repeat match goal with
-         | |- context [if ?c then _ else _] => destruct c eqn:?
-         end.
 
 (* slow-request ratio: maxAllowedRt, maxSlowRequestRatio = Threshold, minRequestAmount, probeNumber *)
 Lemma cb_slow_OnRequestComplete_ok c cur_ok s1 s2 p rt err B T :
@@ -115,15 +154,8 @@ Lemma cb_slow_OnRequestComplete_ok c cur_ok s1 s2 p rt err B T :
   = map enc (complete_leaf c cur_ok s1 s2 p (is_bad c rt err) B T).
 Proof.
   intros Hs. unfold cb_slow_OnRequestComplete, complete_leaf, adds_leaf, decide_leaf, is_bad, reached,
-    open_snapshot, probe_fail_snapshot, ratio. rewrite Hs. cbv zeta.
-  destruct cur_ok; cbn [negb]; [|reflexivity].
-  destruct (max_rt c <? rt) eqn:Ebad;
-    destruct s1; cbn [st_code Z.eqb Pos.eqb app map];
-    try reflexivity.
-  all: try (destruct (T <? min_amt c); [reflexivity|];
-            match goal with |- context [orb ?a ?b] => destruct (orb a b) end; [|reflexivity];
-            destruct s2; reflexivity).
-  all: destruct ((probe_num c =? 0) || (probe_num c <=? p)); reflexivity.
+    open_snapshot, probe_fail_snapshot, ratio. rewrite Hs.
+  destruct cur_ok, s1, s2; cbn [st_code]; leaf_solve.
 Qed.
 
 (* error ratio: errorRatioThreshold = Threshold *)
@@ -133,15 +165,8 @@ Lemma cb_errRatio_OnRequestComplete_ok c cur_ok s1 s2 p rt err B T :
   = map enc (complete_leaf c cur_ok s1 s2 p (is_bad c rt err) B T).
 Proof.
   intros Hs. unfold cb_errRatio_OnRequestComplete, complete_leaf, adds_leaf, decide_leaf, is_bad, reached,
-    open_snapshot, probe_fail_snapshot, ratio. rewrite Hs. cbv zeta.
-  destruct cur_ok; cbn [negb]; [|reflexivity].
-  destruct err; cbn [negb];
-    destruct s1; cbn [st_code Z.eqb Pos.eqb app map];
-    try reflexivity.
-  all: try (destruct (T <? min_amt c); [reflexivity|];
-            match goal with |- context [orb ?a ?b] => destruct (orb a b) end; [|reflexivity];
-            destruct s2; reflexivity).
-  all: destruct ((probe_num c =? 0) || (probe_num c <=? p)); reflexivity.
+    open_snapshot, probe_fail_snapshot, ratio. rewrite Hs.
+  destruct cur_ok, err, s1, s2; cbn [st_code]; leaf_solve.
 Qed.
 
 (* error count: errorCountThreshold = uint64(Threshold) (set by the constructor) *)
@@ -151,15 +176,8 @@ Lemma cb_errCount_OnRequestComplete_ok c cur_ok s1 s2 p rt err B T :
   = map enc (complete_leaf c cur_ok s1 s2 p (is_bad c rt err) B T).
 Proof.
   intros Hs. unfold cb_errCount_OnRequestComplete, complete_leaf, adds_leaf, decide_leaf, is_bad, reached,
-    open_snapshot, probe_fail_snapshot. rewrite Hs. cbv zeta.
-  destruct cur_ok; cbn [negb]; [|reflexivity].
-  destruct err; cbn [negb];
-    destruct s1; cbn [st_code Z.eqb Pos.eqb app map];
-    try reflexivity.
-  all: try (destruct (T <? min_amt c); [reflexivity|];
-            destruct (go_u64_of_f (thr c) <=? B); [|reflexivity];
-            destruct s2; reflexivity).
-  all: destruct ((probe_num c =? 0) || (probe_num c <=? p)); reflexivity.
+    open_snapshot, probe_fail_snapshot. rewrite Hs.
+  destruct cur_ok, err, s1, s2; cbn [st_code]; leaf_solve.
 Qed.
 
 (* ---- the sequential model of C03 is these functions run by one caller (Proofs/BreakerLeafProofs.v) ---- *)
